@@ -73,6 +73,18 @@ def solve (env : Env α) (zero : α) (y0 dt : α) : Result α :=
   | (none, y, _) => .success y
   | (some n, y, t) => levels env zero dt y0 5 1 n y t dt 1 0
 
+/-- what a Python caller of the generated module gets from `Naunet.Solve` (`Naunet::PyWrapSolve`): an array, or an exception -/
+inductive PyResult (α : Type) where
+  | returned (y : α)
+  | raised
+  deriving Repr, DecidableEq
+
+/-- `PyWrapSolve`: `flag = Solve(ab, dt, data); if (flag == NAUNET_FAIL) throw …; return array(ab)` -/
+def pyWrapSolve (env : Env α) (zero : α) (y0 dt : α) : PyResult α :=
+  match solve env zero y0 dt with
+  | .success y => .returned y
+  | .fail _ _ => .raised
+
 /-! ### Odeint: the observer is called once per accepted step (plus the initial call) and throws
     once it has been called more than `mxsteps` times; `Solve` turns the exception into FAIL. -/
 
@@ -83,5 +95,9 @@ def observe (mxsteps : Nat) : Nat → Nat → Option Nat
 
 def odeintSolve (mxsteps ncalls : Nat) : Bool :=   -- true = NAUNET_SUCCESS
   (observe mxsteps ncalls 0).isSome
+
+/-- the Odeint module's `PyWrapSolve` (since the fix of F29): an exception exactly when `Solve` fails -/
+def odeintPyWrap (mxsteps ncalls : Nat) : Bool :=   -- true = an array is returned
+  odeintSolve mxsteps ncalls
 
 end Naunet.Solve
